@@ -51,7 +51,10 @@ Definition marker_set (B : Z) (has_prefix : bool) (c : Z) : bool := is_marker B 
 
 (** parse.rs parse_unsigned (added by the repair of finding F02): no sign of its own *)
 Definition parse_unsigned (r : Z) (s : list Z) : result Z :=
-  match s with 43 :: _ => Err E_InvalidDigit | _ => from_str_radix_spec false r s end.
+  match s with
+  | c :: _ => if c =? 43 then Err E_InvalidDigit else from_str_radix_spec false r s
+  | [] => from_str_radix_spec false r s
+  end.
 
 Definition has_hex_prefix (s : list Z) : bool := starts_with [48; 120] s || starts_with [48; 88] s.
 
